@@ -19,18 +19,38 @@ THEOREMS = [
     "Mesa.Cont.C10_exp_positions_inside",
     "Mesa.Cont.C10_legacy_valid_calls_succeed",
     "Mesa.Cont.C10_exp_valid_calls_succeed",
+    "Mesa.Cont.C10_exp_iadd_is_assignment",
+    "Mesa.Cont.C10_exp_removed_agent_is_dead",
+    "Mesa.Cont.C10_exp_remove_lifecycle",
+    "Mesa.Cont.C10_exp_agent_api",
+    "Mesa.Cont.C10_exp_raw_view_write",
+    "Mesa.Cont.C10_exp_vector_lengths",
+    "Mesa.Cont.C10_exp_capacity_names_the_array",
+    "Mesa.Cont.C10_exp_kept_view_write",
+    "Mesa.Cont.C10_exp_kept_view_read",
     "Mesa.Cont.C10_legacy_neighbors_exact",
     "Mesa.Cont.C10_legacy_neighbors_mem",
+    "Mesa.Cont.C10_legacy_exclude_center",
+    "Mesa.Cont.C10_legacy_zero_distance_iff_same_point",
+    "Mesa.Cont.C10_legacy_negative_radius",
+    "Mesa.Cont.C10_legacy_move_foreign_agent",
+    "Mesa.Cont.C10_legacy_direct_pos_write",
     "Mesa.Cont.C10_exp_radius_exact",
     "Mesa.Cont.C10_exp_distances_exact",
     "Mesa.Cont.C10_exp_subset_queries_exact",
     "Mesa.Cont.C10_exp_neighbors_in_radius",
     "Mesa.Cont.C10_exp_k_nearest",
     "Mesa.Cont.C10_exp_nearest_neighbors",
+    "Mesa.Cont.C10_exp_nearest_neighbors_ties",
+    "Mesa.Cont.C10_exp_negative_radius",
     "Mesa.Cont.C10_exp_k_nearest_range",
     "Mesa.Cont.C10_argsortPart_spec",
     "Mesa.Cont.C10_torus_axis_is_nearest_image",
     "Mesa.Cont.C10_flat_axis_is_abs",
+    "Mesa.Cont.C10_torus_heading_cases",
+    "Mesa.Cont.C10_torus_heading_reaches_target",
+    "Mesa.Cont.C10_flat_heading_is_difference",
+    "Mesa.Cont.C10_axis_zero_distance_iff",
     "Mesa.Cont.C10_legacy_distance_symmetric",
     "Mesa.Cont.C10_legacy_heading_length",
     "Mesa.Cont.C10_exp_distance_symmetric",
@@ -40,6 +60,7 @@ THEOREMS = [
     "Mesa.Cont.C18_cont_move_reject_unchanged",
     "Mesa.Cont.C18_cont_remove_reject_unchanged",
     "Mesa.Cont.C18_cont_setpos_reject_unchanged",
+    "Mesa.Cont.C18_cont_iadd_reject_unchanged",
     "Mesa.Cont.C18_cont_legacy_rejected_call_erasable",
     "Mesa.Cont.C18_cont_exp_rejected_call_erasable",
 ]
@@ -47,20 +68,20 @@ COUNTS = {"quick": 6000, "thorough": 240000}
 TRUSTED = [
     "coordinates/radii are ints in units of 1/64 of small magnitude: every + - * % abs min <= the code performs on them is exact in binary64; IEEE rounding of other floats is not modelled",
     "math.sqrt / np.sqrt / scipy cdist(euclidean) return the correctly rounded square root of the exactly computed sum of squares (the harness inverts it exactly and re-checks sqrt(N)/64 == d); `distances <= radius` is then equivalent to the exact comparison of squares",
-    "numpy argpartition(d, kth): a permutation of the indices with d[res[i]] <= d[res[kth]] for i < kth and >= for i > kth (the driver runs a stable full sort, which satisfies it: theorem C10_argsortPart_spec); which of several agents at exactly the k-th distance is returned is left open",
-    "numpy slicing/boolean masks/fancy indexing/vstack/overlapping slice assignment as documented; np.empty rows are modelled as an unspecified value that is never observed (a new agent is given a position before it is read)",
+    "numpy argpartition(d, kth): a permutation of the indices with d[res[i]] <= d[res[kth]] for i < kth and >= for i > kth (the driver runs a stable full sort, which satisfies it: theorem C10_argsortPart_spec); which of several agents at exactly the k-th distance is returned is left open (get_nearest_neighbors with more than k+1 agents on the agent's own spot: k or k+1 distinct other agents at distance 0 are accepted, theorem C10_exp_nearest_neighbors_ties)",
+    "numpy slicing/boolean masks/fancy indexing/vstack/overlapping slice assignment as documented (a basic slice is a view sharing the memory of its base for as long as it is referenced; vstack returns a new array and leaves its arguments alone); np.empty rows are modelled as an unspecified value that is never observed (a new agent is given a position before it is read)",
     "Python dict = insertion-ordered finite map (legacy _agent_to_index); agent objects are named by small ints",
 ]
 ASSUMPTIONS = [
     "every axis has min < max",
     "toroidal-metric clauses are stated for points of the space (legacy: min <= x < max, experimental: min <= x <= max)",
     "a ContinuousSpaceAgent is assigned a position before its position is read or queried",
-    "moves/removals through the experimental API target agents that are in the space",
+    "experimental agent ids name agent objects: an id is created once (a second `new` of the same id has no counterpart in the code)",
 ]
 RULE = ("random histories over both classes (50/50; 10% from the rejecting-call stream of C18): bounds with negative / non-unit origins and sizes 1/64 .. 15.6, torus on/off, "
-        "experimental: 2-D/3-D and initial capacities {0,1,2,3,5,50,100}; 4-45 ops from place/new+set, move/set (12% per-axis out of bounds, "
-        "coincident and boundary positions), remove, pos, agents, radius / k-nearest (k in 0..n+1, often n) / neighbour queries incl. on the "
-        "empty space and right after a cached read + move, distances and heading/difference vectors; radii aimed at exact agent distances; "
+        "experimental: 1-D .. 5-D (2-D and 3-D most often) and initial capacities {0,1,2,3,5,50,100}; 4-45 ops from place/new+set, move/set (12% per-axis out of bounds, "
+        "coincident and boundary positions), `position += v`, item writes into the returned position, raw writes through the `space.agent_positions` view, references to that view kept across later calls (read and written after re-slicing and re-allocation), the ignored `pos` setter, vectors with one coordinate or with nd-1 / nd+1 coordinates in every call that takes a point (2 % of the ops of spaces with nd >= 2) (experimental), legacy `agent.pos = p` assigned directly by the user (2.5% of the ops, mostly right after a cache-building query, followed by queries at the old and the new position), remove, every agent method on removed agent objects, pos, agents, radius / k-nearest (k in 0..n+1, often n) / neighbour queries incl. on the "
+        "empty space and right after a cached read + move, distances and heading/difference vectors (30% of the toroidal ones exactly half the size apart: the tie of the heading rule); radii aimed at exact agent distances; "
         "non-trivial = >= 2 agents in the space at some point, a mutation after the first query and a query answer naming an agent; "
         "distinct = distinct op-line sequences (sha1)")
 HEADER_LINES = 1
@@ -82,7 +103,7 @@ run_impl = C.run_impl
 oracle = C.oracle
 
 QUERIES = ("nbrs", "radius", "knn", "nir", "nn", "dists")
-MUTATORS = ("place", "move", "set", "remove", "new")
+MUTATORS = ("place", "move", "set", "remove", "new", "iadd", "raw", "hraw", "setpos")
 
 
 def nontrivial(sc, obs):
@@ -115,14 +136,44 @@ def tags(sc, obs):
         yield "cap:" + w0[4]
         yield "ndims:%d" % ((len(w0) - 5) // 2)
     live, cached, first = [], False, True
+    dead = set()
+    cap, reallocs, kept = (int(w0[4]) if kind == "exp" else 0), 0, {}
     for l, o in zip(sc.lines[1:], obs[1:]):
         w = l.split()
         yield "op:" + w[0]
+        if kind == "exp":
+            if w[0] in ("get", "set", "remove", "nir", "nn", "iadd", "poke") and w[1] in dead:
+                yield "branch:call-on-removed-agent"
+            if w[0] in ("dists", "diffs") and ":" in w and dead & set(w[w.index(":") + 1:]):
+                yield "branch:removed-agent-in-subset"
+            if w[0] == "remove" and o == "ok":
+                dead.add(w[1])
+            if w[0] == "iadd" and o == "err OutOfBounds":
+                yield "branch:iadd-rejected"
+            if w[0] == "raw" and o == "ok":
+                yield "branch:write-through-agent_positions-view"
+            if w[0] == "poke" and o == "ok":
+                yield "branch:write-into-returned-position"
+            nc = {"set": len(w) - 2, "iadd": len(w) - 2, "raw": len(w) - 2, "radius": len(w) - 2, "knn": len(w) - 2, "inb": len(w) - 1,
+                  "correct": len(w) - 1, "dists": (w.index(":") if ":" in w else len(w)) - 1,
+                  "diffs": (w.index(":") if ":" in w else len(w)) - 1}.get(w[0])
+            if nc is not None and nc != (len(w0) - 5) // 2:
+                yield "branch:vector-of-wrong-length:" + ("broadcast" if o.startswith("ok") else o.split()[1])
+            if w[0] == "new" and o == "ok" and cap <= len(live):
+                cap += max(int(round(0.2 * (len(live) + 1))), 1)
+                reallocs += 1
+            if w[0] == "hold":
+                kept[w[1]] = (reallocs, len(live))
+            if w[0] in ("hread", "hraw") and w[1] in kept:
+                state = "re-allocated-array" if kept[w[1]][0] != reallocs else ("resliced-array" if kept[w[1]][1] != len(live) else "current-array")
+                yield "branch:kept-view-" + ("write" if w[0] == "hraw" else "read") + "-" + state
         if o.startswith("err"):
             yield "reject:" + w[0] + ":" + o.split()[1]
         if w[0] in QUERIES + ("diffs", "agents") and not live:
             yield "branch:query-on-empty-space"
         if kind == "legacy":
+            if w[0] == "setpos" and w[1] in live:
+                yield "branch:direct-pos-write-" + ("with-live-cache" if cached else "without-cache")
             if w[0] == "nbrs":
                 cached = True
             elif w[0] in ("place", "remove") and o == "ok":
@@ -143,6 +194,12 @@ def tags(sc, obs):
             yield "branch:nn-k-equals-n-1"
         if "*" in o or o.endswith("ambiguous"):
             yield "branch:knn-tie-at-boundary"
+        if w0[3] == "1" and ((w[0] == "heading" and o.startswith("ok h=")) or (w[0] == "diffs" and o.startswith("ok res="))):
+            b = list(map(int, w0[4:8] if kind == "legacy" else w0[5:]))
+            sizes = [b[2 * i + 1] - b[2 * i] for i in range(len(b) // 2)]
+            vecs = [o[5:]] if w[0] == "heading" else [x.split(":")[1] for x in o[7:].split(",") if x]
+            if any(2 * abs(int(c)) == sizes[i] for v in vecs for i, c in enumerate(v.replace(";", ",").split(","))):
+                yield "branch:heading-half-size-tie"
 
 
 if __name__ == "__main__":
